@@ -1322,6 +1322,459 @@ fn dom_names(env: &Env, depth: usize, menu: usize, chain3: bool, rep_triples: bo
     check_laws(env, &LawCfg { dom: "name-flat", ord_name: "cmp", with_eq: true, triples: true, desc: &fdesc, pair_class: &fcls, hash_class: &fcls, only_prefix: None, tag: &format!("{dn}-flat"), sig_dom: "name-flat" }, &frel, Some(&fh));
 }
 
+//------------ names: every compression shape ------------------------------------------------
+
+/// All vectors of `parts` non-negative integers with sum `k`, in
+/// lexicographic order.
+fn compositions(k: usize, parts: usize) -> Vec<Vec<usize>> {
+    if parts == 1 {
+        return vec![vec![k]];
+    }
+    let mut out = Vec::new();
+    for first in 0..=k {
+        for rest in compositions(k - first, parts - 1) {
+            let mut v = vec![first];
+            v.extend(rest);
+            out.push(v);
+        }
+    }
+    out
+}
+
+/// A compression shape of a name of k labels is a composition of k into
+/// h+1 parts (h = number of pointer hops): part i < h is stored as "that
+/// many labels, then a pointer to part i+1", the last part as "labels,
+/// root label". A part of 0 labels before the last is a bare pointer.
+fn shape_class(parts: &[usize]) -> &'static str {
+    let h = parts.len() - 1;
+    if h == 0 {
+        "uncompressed"
+    } else if parts[0] > 0 {
+        if h == 1 {
+            "labels+pointer"
+        } else {
+            "labels+pointer-chain"
+        }
+    } else if h == 1 {
+        "bare-pointer-to-flat"
+    } else if parts[1..h].iter().all(|p| *p == 0) {
+        "pointer-to-pointer-to-flat"
+    } else {
+        "bare-pointer-to-compressed"
+    }
+}
+
+fn shape_text(parts: &[usize]) -> String {
+    parts.iter().map(|p| p.to_string()).collect::<Vec<_>>().join("|")
+}
+
+/// The segments of one shape: segment i holds the labels of part i followed
+/// by a pointer to `next` (the position of segment i+1) or, for the last
+/// part, by the root label.
+fn shape_segment(labels: &[Vec<u8>], parts: &[usize], i: usize, next: usize) -> Vec<u8> {
+    let start: usize = parts[..i].iter().sum();
+    let mut w = labels_wire(&labels[start..start + parts[i]]);
+    if i + 1 == parts.len() {
+        w.push(0);
+    } else {
+        w.extend_from_slice(&ptr(next));
+    }
+    w
+}
+
+/// A message holding one name in one shape: `base` octets of header and
+/// zero filler, the segments innermost first (every pointer points
+/// backwards), four trailing octets. Returns (message, position of the
+/// name, position after the name).
+fn shape_message(labels: &[Vec<u8>], parts: &[usize], base: usize) -> (Vec<u8>, usize, usize) {
+    let mut m = vec![0u8; base];
+    let mut next = 0;
+    for i in (0..parts.len()).rev() {
+        let here = m.len();
+        m.extend_from_slice(&shape_segment(labels, parts, i, next));
+        next = here;
+    }
+    let end = m.len();
+    m.extend_from_slice(&[0, 1, 0, 1]);
+    (m, next, end)
+}
+
+/// Position of the name for the "far" layout: every pointer target is >= 256.
+const FAR_BASE: usize = 12 + 256;
+
+struct ShapeSpec {
+    name: usize,
+    kind: String,
+    class: &'static str,
+    msg: Vec<u8>,
+    pos: usize,
+    end: usize,
+    hops: usize,
+    split: Option<usize>,
+    flat: bool,
+}
+
+fn shape_specs(name: usize, labels: &[Vec<u8>], max_hops: usize, far: bool) -> Vec<ShapeSpec> {
+    let k = labels.len();
+    let mut out = vec![ShapeSpec { name, kind: "flat".into(), class: "flat-name", msg: vec![], pos: 0, end: 0, hops: 0, split: None, flat: true }];
+    for s in 0..=k {
+        out.push(ShapeSpec { name, kind: format!("chain-split-at-{s}"), class: "chain", msg: vec![], pos: 0, end: 0, hops: 0, split: Some(s), flat: false });
+    }
+    for h in 0..=max_hops {
+        for parts in compositions(k, h + 1) {
+            for base in if far { vec![12, FAR_BASE] } else { vec![12] } {
+                let (msg, pos, end) = shape_message(labels, &parts, base);
+                out.push(ShapeSpec { name, kind: format!("parsed-shape[{}]@{base}", shape_text(&parts)), class: shape_class(&parts), msg, pos, end, hops: h, split: None, flat: false });
+            }
+        }
+    }
+    out
+}
+
+/// What one parsed representation says about itself.
+struct ShapeUnary {
+    compressed: bool,
+    flat_slice: Option<Vec<u8>>,
+    plain: Vec<Vec<u8>>,
+    canon: Vec<Vec<u8>>,
+    compose_len: u16,
+    fwd: Vec<Vec<u8>>,
+    back: Vec<Vec<u8>>,
+    label_count: usize,
+    /// problems found on the derived names (iter_suffixes, split_first)
+    derived: Vec<String>,
+}
+
+fn shape_unary(pn: &ParsedName<&[u8]>, labels: &[Vec<u8>]) -> ShapeUnary {
+    let n1: Name<Vec<u8>> = pn.to_name();
+    let n2: Option<Name<Vec<u8>>> = pn.try_to_name().ok();
+    let fl: Option<Name<Vec<u8>>> = (*pn).try_flatten_into().ok();
+    let n5: Name<Vec<u8>> = pn.to_canonical_name();
+    let n7: Option<Name<Vec<u8>>> = pn.try_to_canonical_name().ok();
+    let mut c1 = Vec::new();
+    let mut c2 = Vec::new();
+    let _ = pn.compose(&mut c1);
+    let _ = pn.compose_canonical(&mut c2);
+    let plain = vec![
+        n1.as_slice().to_vec(),
+        n2.map(|n| n.as_slice().to_vec()).unwrap_or_default(),
+        fl.map(|n| n.as_slice().to_vec()).unwrap_or_default(),
+        pn.to_vec().as_slice().to_vec(),
+        pn.to_bytes().as_slice().to_vec(),
+        pn.to_cow().as_slice().to_vec(),
+        c1,
+    ];
+    let canon = vec![n5.as_slice().to_vec(), n7.map(|n| n.as_slice().to_vec()).unwrap_or_default(), c2];
+    let mut derived = Vec::new();
+    let k = labels.len();
+    // every suffix the library derives from this representation is the
+    // suffix of the name, by every operation
+    let check_suffix = |derived: &mut Vec<String>, how: &str, s: usize, q: &ParsedName<&[u8]>| {
+        let w = name_wire(&labels[s.min(k)..]);
+        let want: Nm = Name::from_octets(w.clone()).unwrap();
+        let ok = q.name_eq(&want)
+            && want.name_eq(q)
+            && *q == want
+            && want == *q
+            && q.name_cmp(&want) == Ordering::Equal
+            && want.name_cmp(q) == Ordering::Equal
+            && q.composed_cmp(&want) == Ordering::Equal
+            && want.composed_cmp(q) == Ordering::Equal
+            && q.lowercase_composed_cmp(&want) == Ordering::Equal
+            && hrec(q) == hrec(&want)
+            && q.as_flat_slice().map(|x| x == &w[..]).unwrap_or(true)
+            && q.as_flat_slice().is_none() == q.is_compressed()
+            && q.to_vec().as_slice() == &w[..]
+            && q.compose_len() as usize == w.len()
+            && q.is_root() == (w.len() == 1);
+        if !ok {
+            derived.push(format!("{how}: suffix {s} differs from {} by some operation (flat slice {:?}, to_vec {})", hex(&w), q.as_flat_slice().map(hex), hex(q.to_vec().as_slice())));
+        }
+    };
+    let sufs: Vec<ParsedName<&[u8]>> = pn.iter_suffixes().collect();
+    if sufs.len() != k + 1 {
+        derived.push(format!("iter_suffixes yields {} names for {} labels", sufs.len(), k));
+    }
+    for (s, q) in sufs.iter().enumerate() {
+        check_suffix(&mut derived, "iter_suffixes", s, q);
+    }
+    let mut q = *pn;
+    for s in 0..=k {
+        match q.split_first() {
+            Some(l) => {
+                if s >= k || l.as_slice() != &labels_wire(&labels[s..s + 1])[..] {
+                    derived.push(format!("split_first #{s} returns {}", hex(l.as_slice())));
+                }
+            }
+            None => {
+                if s != k {
+                    derived.push(format!("split_first #{s} returns None"));
+                }
+            }
+        }
+        check_suffix(&mut derived, "split_first", s + 1, &q);
+    }
+    let mut q = *pn;
+    for s in 0..=k {
+        let went = q.parent();
+        if went != (s < k) {
+            derived.push(format!("parent #{s} returns {went}"));
+        }
+        check_suffix(&mut derived, "parent", s + 1, &q);
+    }
+    ShapeUnary {
+        compressed: pn.is_compressed(),
+        flat_slice: pn.as_flat_slice().map(|s| s.to_vec()),
+        plain,
+        canon,
+        compose_len: pn.compose_len(),
+        fwd: pn.iter().map(|l| l.as_slice().to_vec()).collect(),
+        back: pn.iter().rev().map(|l| l.as_slice().to_vec()).collect(),
+        label_count: pn.label_count(),
+        derived,
+    }
+}
+
+/// Names in every compression shape: every name of the menu (all label
+/// sequences of <= depth labels) as flat `Name`, as `Chain` split at every
+/// boundary and as `ParsedName` parsed from a hand-assembled message that
+/// stores it in every composition of its labels into h+1 <= max_hops+1
+/// segments joined by pointers (see `shape_class`), optionally also with
+/// all pointer targets >= 256. The message is checked with the independent
+/// decompressor `mc::wire::read_name` first. All ordered pairs of all
+/// representations.
+fn dom_name_shapes(env: &Env, depth: usize, menu: usize, max_hops: usize, far: bool, dom_id: u64, only: Option<&[usize]>) {
+    let dom = "name-shape";
+    let names = name_items(depth, menu);
+    let specs_all: Vec<ShapeSpec> = names.iter().enumerate().flat_map(|(i, l)| shape_specs(i, l, max_hops, far)).collect();
+    let specs = restrict(specs_all, only);
+    let n = specs.len();
+    let tag = format!("name-shape(depth{depth},menu{menu},hops{max_hops}{})", if far { ",near+far" } else { "" });
+    // a defect the plain name domains have reported already is reported
+    // here once per operation, not once per pair of shape classes
+    let generic = NAME_LEVEL_BROKEN.load(AO::Relaxed);
+    let cls1 = |i: usize| if generic { "any-shape(name-level-defect-reported-before)" } else { specs[i].1.class };
+    let cls2 = |i: usize, j: usize| if generic { cls1(i).to_string() } else { format!("{}-vs-{}", specs[i].1.class, specs[j].1.class) };
+    let desc = |i: usize| {
+        let s = &specs[i].1;
+        json!({"index": specs[i].0, "depth": depth, "menu": menu, "max_hops": max_hops, "far": far, "labels_hex": names[s.name].iter().map(|l| hex(l)).collect::<Vec<_>>(), "labels": names[s.name].iter().map(|l| String::from_utf8_lossy(l).to_string()).collect::<Vec<_>>(), "representation": s.kind, "shape_class": s.class, "message": hex(&s.msg), "pos": s.pos})
+    };
+    let wires: Vec<Vec<u8>> = names.iter().map(|l| name_wire(l)).collect();
+    let lwires: Vec<Vec<u8>> = names.iter().map(|l| name_wire(&l.iter().map(|x| lc(x)).collect::<Vec<_>>())).collect();
+    let lcl: Vec<Vec<Vec<u8>>> = names.iter().map(|l| l.iter().rev().map(|x| lc(x)).collect()).collect();
+    let flat_names: Vec<Nm> = wires.iter().map(|w| Name::from_octets(w.clone()).expect("menu name")).collect();
+    let flat_hashes: Vec<Hs> = flat_names.iter().map(|f| guard(|| hrec(f)).unwrap_or_default()).collect();
+    // the hand-assembled messages hold what they are meant to hold
+    for (_, s) in &specs {
+        if s.flat || s.split.is_some() {
+            continue;
+        }
+        let mut ptrs = Vec::new();
+        match mc::wire::read_name(&s.msg, s.pos, &mut ptrs) {
+            Ok((l, after)) if l == names[s.name] && after == s.end && ptrs.len() == s.hops => {}
+            other => {
+                eprintln!("MACHINERY: message {} at {} ({}) decompresses to {:?}", hex(&s.msg), s.pos, s.kind, other);
+                std::process::exit(2);
+            }
+        }
+    }
+    // build the library values
+    let mut reps: Vec<Rep> = Vec::with_capacity(n);
+    for (i, (_, s)) in specs.iter().enumerate() {
+        let labels = &names[s.name];
+        env.stats.eval();
+        let case = || json!({"domain": dom, "items": [desc(i)]});
+        let r: Result<Result<Rep, String>, String> = guard(|| {
+            if s.flat {
+                Ok(Rep::Flat(flat_names[s.name].clone()))
+            } else if let Some(sp) = s.split {
+                let left = RelativeName::from_octets(labels_wire(&labels[..sp])).map_err(|e| e.to_string())?;
+                let right = Name::from_octets(name_wire(&labels[sp..])).map_err(|e| e.to_string())?;
+                left.chain(right).map(Rep::Chain).map_err(|e| e.to_string())
+            } else {
+                let mut p = Parser::from_ref(s.msg.as_slice());
+                p.advance(s.pos).map_err(|e| e.to_string())?;
+                let pn = ParsedName::parse(&mut p).map_err(|e| e.to_string())?;
+                if p.pos() != s.end {
+                    return Err(format!("parser-position:{}", p.pos()));
+                }
+                Ok(Rep::Parsed(pn))
+            }
+        });
+        match r {
+            Ok(Ok(rep)) => reps.push(rep),
+            Ok(Err(e)) if e.starts_with("parser-position:") => {
+                env.viol(format!("C04|name-shape|parse-leaves-the-parser-at-the-wrong-position|{}", cls1(i)), format!("{e}, the name ends at {}", s.end), case());
+                reps.push(Rep::Flat(Name::root_vec()));
+            }
+            Ok(Err(e)) => {
+                env.viol(format!("C04|name-shape|representation-cannot-be-built|{}", cls1(i)), e, case());
+                reps.push(Rep::Flat(Name::root_vec()));
+            }
+            Err(e) => {
+                env.viol(format!("C04|name-shape|panic|{}|{}", cls1(i), panic_class(&e)), e, case());
+                reps.push(Rep::Flat(Name::root_vec()));
+            }
+        }
+    }
+    env.stats.count_n(&format!("{tag}:names"), names.len() as u64);
+    env.stats.count_n(&format!("{tag}:representations"), n as u64);
+    // unary: what each parsed representation says about itself
+    let hashes: Vec<Option<Hs>> = (0..n)
+        .into_par_iter()
+        .map(|i| {
+            let s = &specs[i].1;
+            let ni = s.name;
+            let case = || json!({"domain": dom, "items": [desc(i)]});
+            let mut local: BTreeMap<String, u64> = BTreeMap::new();
+            let h = match &reps[i] {
+                Rep::Flat(a) => guard(|| hrec(a)).ok(),
+                Rep::Parsed(a) => match guard(|| hrec(a)) {
+                    Ok(h) => Some(h),
+                    Err(e) => {
+                        env.viol(format!("C04|name-shape|panic|{}|{}", cls1(i), panic_class(&e)), e, case());
+                        None
+                    }
+                },
+                _ => None,
+            };
+            if let Rep::Parsed(pn) = &reps[i] {
+                env.stats.eval();
+                match guard(|| shape_unary(pn, &names[ni])) {
+                    Err(e) => env.viol(format!("C04|name-shape|panic|{}|{}", cls1(i), panic_class(&e)), e, case()),
+                    Ok(u) => {
+                        *local.entry(format!("{tag}:{}:{}", s.class, if u.compressed { "is_compressed" } else { "flat-slice-path" })).or_insert(0) += 1;
+                        if u.compressed != u.flat_slice.is_none() {
+                            env.viol(format!("C04|name-shape|is_compressed-vs-as_flat_slice|{}", cls1(i)), format!("is_compressed {} but as_flat_slice {:?}", u.compressed, u.flat_slice.as_ref().map(|x| hex(x))), case());
+                        }
+                        if let Some(fs) = &u.flat_slice {
+                            if *fs != wires[ni] {
+                                env.viol(format!("C04|name-shape|as_flat_slice-is-not-the-uncompressed-wire-form|{}", cls1(i)), format!("as_flat_slice = {}, the name is {}", hex(fs), hex(&wires[ni])), case());
+                            }
+                        }
+                        if u.plain.iter().any(|w| *w != wires[ni]) || u.compose_len as usize != wires[ni].len() {
+                            env.viol(
+                                format!("C04|name-shape|conversion|to_name/flatten_into/to_vec/to_bytes/to_cow/compose-changes-the-name|{}", cls1(i)),
+                                format!("{:?} (compose_len {}) vs {}", u.plain.iter().map(|w| hex(w)).collect::<Vec<_>>(), u.compose_len, hex(&wires[ni])),
+                                case(),
+                            );
+                        }
+                        if u.canon.iter().any(|w| *w != lwires[ni]) {
+                            env.viol(format!("C04|name-shape|conversion|canonical-form-is-not-the-lower-cased-name|{}", cls1(i)), format!("{:?} vs {}", u.canon.iter().map(|w| hex(w)).collect::<Vec<_>>(), hex(&lwires[ni])), case());
+                        }
+                        let mut want: Vec<Vec<u8>> = names[ni].clone();
+                        want.push(vec![]);
+                        let mut wback = want.clone();
+                        wback.reverse();
+                        if u.fwd != want || u.back != wback || u.label_count != want.len() {
+                            env.viol(format!("C04|name-shape|label-iteration-differs-from-the-name|{}", cls1(i)), format!("forward {:?}, backward {:?}, label_count {}", u.fwd.iter().map(|w| hex(w)).collect::<Vec<_>>(), u.back.iter().map(|w| hex(w)).collect::<Vec<_>>(), u.label_count), case());
+                        }
+                        if !u.derived.is_empty() {
+                            env.viol(format!("C04|name-shape|derived-suffix(iter_suffixes/split_first/parent)-differs-from-the-suffix|{}", cls1(i)), u.derived.join("; "), case());
+                        }
+                        *local.entry(format!("{tag}:derived-suffix-names-checked")).or_insert(0) += 3 * (names[ni].len() as u64 + 1);
+                        if let Some(h) = &h {
+                            if h.stream != flat_hashes[ni].stream {
+                                env.viol(format!("C04|name-shape|hash-input-differs-from-flat-name|{}", cls1(i)), format!("{} vs {}", hex(&h.stream), hex(&flat_hashes[ni].stream)), case());
+                            } else if h.shape != flat_hashes[ni].shape {
+                                env.viol(format!("C04|name-shape|hasher-calls-differ-from-flat-name|{}", cls1(i)), format!("{} vs {}", hex(&h.shape), hex(&flat_hashes[ni].shape)), case());
+                            }
+                        }
+                    }
+                }
+            }
+            env.stats.merge_counts(&local);
+            h
+        })
+        .collect();
+    // all ordered pairs
+    let mut rel = Rel::new(n);
+    let track_pairs = n * n <= 6_000_000;
+    let rows: Vec<(Vec<bool>, Vec<i8>)> = (0..n)
+        .into_par_iter()
+        .map(|i| {
+            let mut re = vec![false; n];
+            let mut rc = vec![0i8; n];
+            let ni = specs[i].1.name;
+            for j in 0..n {
+                let nj = specs[j].1.name;
+                let case = || json!({"domain": dom, "items": [desc(i), desc(j)]});
+                let r = guard(|| observe_names(&reps[i], &reps[j]));
+                env.stats.eval();
+                if i != j {
+                    if track_pairs {
+                        env.stats.distinct(mix(dom_id, specs[i].0, specs[j].0));
+                    } else if j == 0 {
+                        env.stats.distinct(mix(dom_id, specs[i].0, usize::MAX));
+                    }
+                }
+                let o = match r {
+                    Ok(o) => o,
+                    Err(e) => {
+                        env.viol(format!("C04|name-shape|panic|{}|{}", cls2(i, j), panic_class(&e)), e, case());
+                        continue;
+                    }
+                };
+                env.say(|| format!("name-shape[{}] {} ? name-shape[{}] {}: {:?}", specs[i].0, specs[i].1.kind, specs[j].0, specs[j].1.kind, o));
+                re[j] = o.name_eq;
+                rc[j] = o.name_cmp;
+                let ref_eq = lcl[ni] == lcl[nj];
+                let ref_cmp = sgn(lcl[ni].cmp(&lcl[nj]));
+                if o.name_eq != ref_eq {
+                    let k = if ref_eq { "equal-names-unequal" } else { "different-names-equal" };
+                    env.viol(format!("C04|name-shape|name_eq-vs-reference|{k}|{}", cls2(i, j)), format!("name_eq = {}", o.name_eq), case());
+                }
+                if o.name_cmp != ref_cmp {
+                    env.viol(format!("C04|name-shape|name_cmp-vs-rfc4034-6.1|{}", cls2(i, j)), format!("name_cmp = {}, RFC 4034 6.1 canonical name order says {}", ord_s(o.name_cmp), ord_s(ref_cmp)), case());
+                }
+                if let Some((eq, pc, cc, lt, le, gt, ge)) = o.ops {
+                    let c = o.name_cmp;
+                    if eq != o.name_eq || pc != Some(c) || cc != c || lt != (c < 0) || le != (c <= 0) || gt != (c > 0) || ge != (c >= 0) {
+                        env.viol(format!("C04|name-shape|operators-vs-name_eq/name_cmp|{}", cls2(i, j)), format!("{o:?}"), case());
+                    }
+                }
+                if o.can_ops_ok == Some(false) {
+                    env.viol(format!("C04|name-shape|canonical_lt/le/gt/ge-vs-canonical_cmp|{}", cls2(i, j)), format!("{o:?}"), case());
+                }
+                if let Some(c) = o.ord {
+                    if c != o.name_cmp {
+                        env.viol(format!("C04|name-shape|Ord::cmp-vs-name_cmp|{}", cls2(i, j)), format!("{o:?}"), case());
+                    }
+                }
+                let ref_comp = sgn(wires[ni].cmp(&wires[nj]));
+                if o.composed != ref_comp {
+                    env.viol(format!("C04|name-shape|composed_cmp-vs-wire-octets|{}", cls2(i, j)), format!("composed_cmp = {}, wire octets order {}", ord_s(o.composed), ord_s(ref_comp)), case());
+                }
+                let ref_lcomp = sgn(lwires[ni].cmp(&lwires[nj]));
+                if o.lc_composed != ref_lcomp {
+                    env.viol(format!("C04|name-shape|lowercase_composed_cmp-vs-canonical-wire-octets|{}", cls2(i, j)), format!("lowercase_composed_cmp = {}, canonical wire octets order {}", ord_s(o.lc_composed), ord_s(ref_lcomp)), case());
+                }
+                if o.name_eq || ref_eq {
+                    if let (Some(h1), Some(h2)) = (&hashes[i], &hashes[j]) {
+                        if h1.stream != h2.stream {
+                            env.viol(format!("C04|name-shape|eq-implies-hash|hash-input-differs|{}", cls2(i, j)), format!("{} vs {}", hex(&h1.stream), hex(&h2.stream)), case());
+                        } else if h1.shape != h2.shape {
+                            env.viol(format!("C04|name-shape|eq-implies-hash|same-octets-different-hasher-calls|{}", cls2(i, j)), format!("{} vs {}", hex(&h1.shape), hex(&h2.shape)), case());
+                        }
+                    }
+                }
+            }
+            (re, rc)
+        })
+        .collect();
+    for (i, (re, rc)) in rows.into_iter().enumerate() {
+        rel.eq[i * n..(i + 1) * n].copy_from_slice(&re);
+        rel.cmp[i * n..(i + 1) * n].copy_from_slice(&rc);
+    }
+    env.stats.count_n(&format!("{tag}:ordered-pairs"), (n * n) as u64);
+    if let Some(i) = (0..n).find(|&i| specs[i].1.class == "bare-pointer-to-compressed") {
+        let j = (0..n).find(|&j| specs[j].1.flat && specs[j].1.name == specs[i].1.name).unwrap_or(0);
+        env.stats.sample(64, || json!({"domain": dom, "a": desc(i), "b": desc(j), "name_eq": rel.e(i, j), "name_cmp": ord_s(rel.c(i, j)), "hash_inputs": [hashes[i].as_ref().map(|h| hex(&h.stream)), hashes[j].as_ref().map(|h| hex(&h.stream))]}));
+    }
+    let cls = |i: usize, j: usize| cls2(i, j);
+    check_laws(env, &LawCfg { dom, ord_name: "name_cmp", with_eq: true, triples: n <= 3000, desc: &desc, pair_class: &cls, hash_class: &cls, only_prefix: None, tag: &tag, sig_dom: "name-shape" }, &rel, None);
+}
+
 //------------ relative names ------------------------------------------------------------
 
 type RCh = Chain<RelN, RelN>;
@@ -2980,6 +3433,10 @@ fn main() {
                 dom_names(&env, depth, menu, chain3, true, 3, Some(&idx))
             }
             "relname" | "relname-flat" => dom_relnames(&env, 3, Some(&idx)),
+            "name-shape" => {
+                let it = &case["items"][0];
+                dom_name_shapes(&env, it["depth"].as_u64().unwrap_or(3) as usize, it["menu"].as_u64().unwrap_or(5) as usize, it["max_hops"].as_u64().unwrap_or(2) as usize, it["far"].as_bool().unwrap_or(false), 17, Some(&idx))
+            }
             "nsec3-owner-hash" => dom_owner_hash(&env, Some(&idx)),
             "nsec3-salt" => dom_nsec3_salt(&env, Some(&idx)),
             "timestamp" => dom_timestamps(&env),
@@ -3006,7 +3463,11 @@ fn main() {
         phase("names-depth3", &mut || dom_names(&env, 3, 5, false, true, 3, None));
         phase("names-depth2-extended-menu", &mut || dom_names(&env, 2, 7, true, true, 9, None));
         phase("relative-names", &mut || dom_relnames(&env, 3, None));
+        phase("name-shapes-depth3-hops2", &mut || dom_name_shapes(&env, 3, 5, 2, false, 17, None));
+        phase("name-shapes-depth2-extended-menu-hops3-near+far", &mut || dom_name_shapes(&env, 2, 7, 3, true, 18, None));
         if !quick {
+            phase("name-shapes-depth3-hops3", &mut || dom_name_shapes(&env, 3, 5, 3, false, 19, None));
+            phase("name-shapes-depth3-extended-menu-hops2", &mut || dom_name_shapes(&env, 3, 7, 2, false, 20, None));
             phase("names-depth4", &mut || dom_names(&env, 4, 5, false, false, 4, None));
             phase("names-depth3-extended-menu", &mut || dom_names(&env, 3, 7, true, false, 10, None));
         }
